@@ -82,33 +82,24 @@ impl Divert {
     pub fn get_target_pointer(self: &Rc<Self>) -> Pointer {
         let target_pointer_null = self.target_pointer.borrow().is_null();
         if target_pointer_null {
-            let target_obj =
-                Object::resolve_path(self.clone(), self.target_path.borrow().as_ref().unwrap())
-                    .obj
-                    .clone();
-
-            if self
-                .target_path
-                .borrow()
+            // A divert without a (non-empty) target path, or whose target is not a
+            // container, has nowhere to go: the pointer stays null and the caller
+            // reports the failed resolution.
+            let target_path = self.target_path.borrow().clone();
+            let last_component = target_path
                 .as_ref()
-                .unwrap()
-                .get_last_component()
-                .unwrap()
-                .is_index()
-            {
-                self.target_pointer.borrow_mut().container = target_obj.get_object().get_parent();
-                self.target_pointer.borrow_mut().index = self
-                    .target_path
-                    .borrow()
-                    .as_ref()
-                    .unwrap()
-                    .get_last_component()
-                    .unwrap()
-                    .index
-                    .unwrap() as i32;
-            } else {
-                let c = target_obj.into_any().downcast::<Container>();
-                self.target_pointer.replace(Pointer::start_of(c.unwrap()));
+                .and_then(|p| p.get_last_component().cloned());
+
+            if let (Some(target_path), Some(last_component)) = (target_path, last_component) {
+                let target_obj = Object::resolve_path(self.clone(), &target_path).obj.clone();
+
+                if let Some(index) = last_component.index {
+                    self.target_pointer.borrow_mut().container =
+                        target_obj.get_object().get_parent();
+                    self.target_pointer.borrow_mut().index = index as i32;
+                } else if let Ok(c) = target_obj.into_any().downcast::<Container>() {
+                    self.target_pointer.replace(Pointer::start_of(c));
+                }
             }
         }
 
